@@ -140,6 +140,22 @@ CHECKS = {
         note=_STATIC_NOTE + " One known finding (F11: timestamp in the optional file header). Not decided: byte identity itself (the generator cannot run here).",
         technique="static analysis: unordered-iteration and id() taint to order-sensitive sinks, scheduling/ordering check on the pipeline table, who-may-emit rule",
     ),
+    "C02": dict(
+        text="Static discharge of stage-agreement clauses only (the generator cannot run here): field-metadata vocabulary agreement between generator, runtime builder and "
+        "docs; restriction keys are Restrictions fields; tag->kind table; pipeline typestate (step-aware lookups, every handler scheduled once); namespace-"
+        "inheritance agreement for attributes; transitive substitution groups; renumbering scheduled last.",
+        design_ref="DESIGN.md section 4 C02",
+        note=_STATIC_NOTE + " Not decided: that schema-valid documents parse and re-serialize faithfully with generated classes; option independence.",
+        technique="static analysis: three-way vocabulary agreement (code/code/docs), table totality, who-may-read rule on the class container, CFG must-pass",
+    ),
+    "C07": dict(
+        text="Static discharge of discipline and template clauses: every raise is CodegenError and every assert a tabled narrowing; Jinja template taint - identifier "
+        "positions pass a naming filter reaching safe_name, string-literal positions pass an escaping filter; reserved words cover the interpreter's keyword list; "
+        "duplicate handling keyed like naming; renames rewrite every reference form.",
+        design_ref="DESIGN.md section 4 C07",
+        note=_STATIC_NOTE + " Known finding F10 (unescaped names/namespaces in class.jinja2/module.jinja2). Jinja2 semantics subset is trusted. Not decided: termination / importability for every input.",
+        technique="static analysis: raise/assert discipline tables, template lexing with lexical-context classification and filter-chain taint, keyword-table comparison, def-use agreement",
+    ),
 }
 
 NOT_APPLICABLE = [
